@@ -377,13 +377,14 @@ def list_tests(bld: str, inv: dict, slc: T.Optional[T.Tuple[int, int]], known: T
     return out, r
 
 
-def proc_is_ours(pid: int, marker: str) -> bool:
+def proc_is_ours(pid: int, work: str) -> bool:
+    """Is `pid` (still) a test process of the project under `work`?  (pid numbers are reused quickly here: look at the command line)"""
     try:
         with open(f'/proc/{pid}/cmdline', 'rb') as f:
             cl = f.read()
     except OSError:
         return False
-    return marker.encode() in cl
+    return work.encode() in cl and b't.py' in cl
 
 
 def setup_project(tests: T.List[dict], work: str) -> str:
@@ -437,8 +438,15 @@ def norm_inv(inv: dict, tests: T.List[dict], ev: T.Optional[Evidence]) -> dict:
     return o
 
 
-def check_invocation(tests: T.List[dict], inv: dict, bld: str, work: str, ev: T.Optional[Evidence], tag: str) -> T.Optional[Failure]:
-    case = {'tests': tests, 'inv': inv}
+KNOWN_MAXFAIL = ('--maxfail can trip with J>=2 and >=2 tests selected: manifestations of the known finding '
+                 'maxfail/started-test-not-reported (cancelled test vanishes from the report, asyncio "Event loop is closed" noise) are masked')
+
+
+def check_invocation(tests: T.List[dict], inv: dict, bld: str, work: str, ev: T.Optional[Evidence], tag: str,
+                     strict: bool = False) -> T.Optional[Failure]:
+    case: dict = {'tests': tests, 'inv': inv}
+    if strict:
+        case['strict'] = True
     by_name = {t['name']: t for t in tests}
     known = set(by_name)
     model_sel = selection(tests, inv)
@@ -460,6 +468,13 @@ def check_invocation(tests: T.List[dict], inv: dict, bld: str, work: str, ev: T.
     R, M, J = inv['repeat'], inv['maxfail'], inv['j']
     cut_short = (R > 1 and bool(maybe_bad)) or (M > 0 and len(maybe_bad) >= M)
     hangers = {n for n in known if by_name[n]['mode'] in ('hang', 'hangstub')}
+    # Known genuine defect (reports/C12.md): when --maxfail trips, the other running tests are cancelled at whatever
+    # await they are in; only the plain wait handles that, so e.g. a test that is just being killed for its timeout
+    # is dropped without being reported.  The class is kept in the campaign, its two manifestations are masked;
+    # the saved regression case replays it with strict=True.
+    masked = (not strict) and M > 0 and len(maybe_bad) >= M and J >= 2 and len(run_names) >= 2
+    if masked and ev is not None:
+        ev.exclude(KNOWN_MAXFAIL)
 
     # -- run
     log = os.path.join(work, f'events-{tag}.log')
@@ -473,7 +488,7 @@ def check_invocation(tests: T.List[dict], inv: dict, bld: str, work: str, ev: T.
     cmd = ['test', '--no-rebuild'] + args + inv['names']
     r = run_sub(cmd, cwd=bld, env=env, timeout=600)
     runs = parse_events(log)
-    marker = os.path.join(work, 'src', 't.py')
+    marker = work
     ctxmsg = f'\ncommand: meson {" ".join(cmd)} env={ {k: v for k, v in env.items() if k != "C12_LOG"} }\nselected (model): {run_names}\n'
 
     def fail(sig: str, msg: str) -> Failure:
@@ -492,7 +507,8 @@ def check_invocation(tests: T.List[dict], inv: dict, bld: str, work: str, ev: T.
                     os.kill(run.pid, signal.SIGKILL)
                 except OSError:
                     pass
-    if r.unhandled:
+    gc_noise = 'Exception ignored in' in r.err and 'Event loop is closed' in r.err
+    if r.unhandled and not gc_noise:
         return fail('run/unhandled-exception', 'meson test printed a traceback')
 
     nontrivial_sched = J >= 2 and sum(1 for n in run_names if not by_name[n]['parallel']) >= 1 and \
@@ -589,13 +605,23 @@ def check_invocation(tests: T.List[dict], inv: dict, bld: str, work: str, ev: T.
                             f'test {n} ({t["mode"]} {t["par"]}, {t["xf"] or "no should_fail"}) is reported as {res}; documented: {sorted(allowed[n])}')
         if len(ress) > R:
             return fail('testlog/too-many-entries', f'test {n} has {len(ress)} testlog entries with --repeat {R}')
+    if not masked:
+        for n in run_names:
+            started = sum(c for (tid, _), c in count.items() if tid == n)
+            if started > len(per.get(n, [])):
+                sig = 'maxfail/started-test-not-reported' if (M > 0 and cut_short) else 'testlog/started-test-not-reported'
+                ended = sum(1 for x in runs if x.tid == n and x.e is not None)
+                still = [x.pid for x in alive if x.tid == n]
+                return fail(sig, f'test {n} was started {started} time(s) (it logged its own start; {ended} of these also logged their end) but testlog.json has {len(per.get(n, []))} '
+                            f'entr(y/ies) for it and the printed totals do not count it' + (f'; its process {still} was still running after meson test had returned' if still else '') + '; testlog.json tally: '
+                            f'{ {res: sum(1 for _, x in entries if x == res) for res in sorted({x for _, x in entries})} }')
     if not cut_short:
         for n in run_names:
             if len(per.get(n, [])) != R:
                 return fail('testlog/entry-count', f'test {n}: {len(per.get(n, []))} testlog.json entries, expected {R} (one per repetition)')
     # TIMEOUT => the process is gone
     for run in alive:
-        if run.tid in hangers:
+        if run.tid in hangers and not masked:
             return fail('timeout/process-survives', f'test {run.tid} timed out but its process {run.pid} is still running after meson test returned')
 
     # (5) printed totals == tally of testlog.json
@@ -622,6 +648,8 @@ def check_invocation(tests: T.List[dict], inv: dict, bld: str, work: str, ev: T.
         return fail('exit/nonzero-without-bad', f'exit status {r.rc} although no test failed: {tally}')
     if surely_bad and r.rc == 0:
         return fail('exit/zero-with-bad:model', f'exit status 0 although {surely_bad} must fail')
+    if gc_noise and not masked:
+        return fail('run/subprocess-transport-leak', 'meson test left a test subprocess transport unclosed (asyncio destructor traceback on stderr)')
     return None
 
 
@@ -654,6 +682,7 @@ def check_partition(tests: T.List[dict], inv: dict, n: int, bld: str, ev: T.Opti
 
 def check_case(case: dict, work: str, ev: T.Optional[Evidence]) -> T.Optional[Failure]:
     """case = {'tests': [...], 'invs': [...]} (or 'inv': {...})."""
+    strict = bool(case.get('strict', False))
     tests = [gen_exclusions(norm_test(t, i), ev) for i, t in enumerate(case['tests'])]
     has_hang = any(t['mode'] in ('hang', 'hangstub') for t in tests)
     if has_hang:
@@ -672,7 +701,7 @@ def check_case(case: dict, work: str, ev: T.Optional[Evidence]) -> T.Optional[Fa
             if not has_hang and inv['tmul'] is not None and inv['tmul'] < 1:
                 inv['tmul'] = None if inv0.get('no_t') else inv['tmul'] * 10
             if not inv.get('list_only'):
-                f = check_invocation(tests, inv, bld, work, ev, str(k))
+                f = check_invocation(tests, inv, bld, work, ev, str(k), strict=strict)
                 if f is not None:
                     return f
             for n in inv['slice_ns']:
@@ -761,7 +790,7 @@ def case_strategy(max_tests: int, max_invs: int):
         inv['tmul'] = draw(st.sampled_from([0.25, 0.3, 0.4]))
         inv['no_t'] = draw(st.booleans())
         inv['flags'] = draw(st.lists(st.sampled_from(['--print-errorlogs', '--quiet', '--verbose', '--no-stdsplit']), max_size=2, unique=True))
-        if draw(st.integers(0, 4)) == 0:
+        if draw(st.sampled_from([False, False, False, False, True])):
             n = draw(st.integers(1, 4))
             inv['slice'] = [draw(st.integers(1, n)), n]
         else:
@@ -904,7 +933,7 @@ def selftest(ctx: Ctx) -> None:
 
 def run(ctx: Ctx) -> None:
     nshards = 32
-    per = ctx.n(2, 50)
+    per = ctx.n(2, 30)
     shards: T.List[tuple] = [('gen', s, per, ctx.quick) for s in shard_seeds(ctx, nshards)]
     k = 0
     for p in probes(ctx.seed):
@@ -915,9 +944,18 @@ def run(ctx: Ctx) -> None:
 
 
 def replay(ctx: Ctx, case: T.Any, doc: dict) -> T.Optional[Failure]:
+    """Re-run one saved case.  Schedule-dependent cases get a few attempts; `alt_durs` ({test: [ms, ...]}) lets a saved
+    case vary one duration per attempt (the known --maxfail finding needs a failure to land inside another test's
+    kill window, whose position depends on process start-up cost)."""
+    sig = str(doc.get('signature', ''))
+    tries = int(case.get('attempts', 3 if sig.split('/')[0] in ('serial', 'jobs', 'once', 'maxfail', 'testlog') else 1))
     f = None
-    for _ in range(3 if str(doc.get('signature', '')).split('/')[0] in ('serial', 'jobs', 'once') else 1):   # schedule dependent: a few tries
-        f = check_case(case, os.path.join(ctx.scratch, 'replay'), None)
+    for k in range(tries):
+        c = dict(case)
+        alt = case.get('alt_durs') or {}
+        if alt:
+            c['tests'] = [dict(t, dur=alt[t['name']][k % len(alt[t['name']])]) if t.get('name') in alt else t for t in case['tests']]
+        f = check_case(c, os.path.join(ctx.scratch, 'replay'), None)
         if f is not None:
             return f
     return f
